@@ -77,14 +77,18 @@ def norm_model(line: str) -> Tuple[str, str, str]:
     return out, valid.split("=")[1], exists.split("=")[1]
 
 
-def explore(ctx: Ctx, want_live: bool = True, structure: bool = True, contract=None) -> List[dict]:
+def explore(ctx: Ctx, want_live: bool = True, structure: bool = True, contract=None, only=None) -> List[dict]:
     """Runs R-req and returns one record per request: scenario, path, impl outcome, model outcome, impl/model mask, flags.
-    With a `contract` (rigs/request_contract.Contract) every request is also judged against the hand-written contract."""
+    With a `contract` (rigs/request_contract.Contract) every request is also judged against the hand-written contract.
+    `only` restricts the run to the named scenarios (one shard); every scenario has its own random stream, so the result does
+    not depend on how the scenarios are distributed over processes."""
     reg = registry()
-    rng = ctx.rng.fork("req")
     records: List[dict] = []
     lines: List[str] = []
     for name, path in scenarios(ctx).items():
+        if only is not None and name not in only:
+            continue
+        rng = ctx.rng.fork("req:" + name)
         try:
             cfg = scen.load_cfg(path)
             game = scen.make_game(cfg)
@@ -197,7 +201,7 @@ def explore(ctx: Ctx, want_live: bool = True, structure: bool = True, contract=N
 DOCUMENTED = {"pending", "success", "failure", "unreachable"}
 
 
-def judge(ctx: Ctx, records: List[dict]):
+def judge(ctx: Ctx, records: List[dict], oblige: bool = True):
     agree = total = 0
     for r in records:
         k = r["kind"]
@@ -259,10 +263,80 @@ def judge(ctx: Ctx, records: List[dict]):
             ctx.violation({"kind": "action-on-existing-component-unreachable", "action": k.split(":", 1)[1]},
                           f"action request {r['req']} names existing components but is unreachable",
                           {"scenario": r["scenario"], "round": r["round"], "req": r["req"]})
-    ctx.oblige("rig:R-req dispatch agrees with the model on every request", "correspondence", agree == total, f"{total - agree} of {total} differ")
+    if oblige:
+        ctx.oblige("rig:R-req dispatch agrees with the model on every request", "correspondence", agree == total, f"{total - agree} of {total} differ")
     for r in records:
         if r["kind"] not in ("tree",) and not r["kind"].startswith("live:"):
             ctx.sample({"scenario": r["scenario"], "req": r["req"], "impl": r["impl"], "model": r["model_raw"]}, cap=5)
+    return agree, total
+
+
+# ---------------------------------------------------------------------------------------------- shards (thorough tier)
+_SHARD: Dict[str, Any] = {}
+
+
+def _shard_unit(name: str) -> dict:
+    """one scenario in a forked worker: explore + driver + judge on a private Ctx; returns what has to be merged"""
+    import time
+    t0 = time.time()
+    sub = Ctx(_SHARD["prop"], _SHARD["tier"], _SHARD["seed"])
+    try:
+        contract = rcon.Contract(sorted(registry()))
+    except Exception:
+        contract = None
+    try:
+        agree, total = judge(sub, explore(sub, contract=contract, only=[name]), oblige=False)
+        err = None
+    except Exception as e:   # a shard that dies must not pass silently
+        import traceback
+        agree = total = 0
+        err = f"{type(e).__name__}: {e}\n{traceback.format_exc()[-1500:]}"
+    return {"name": name, "hist": sub.hist, "violations": sub.violations, "notes": sub.notes, "distinct": sub._distinct,
+            "evaluations": sub.cov["evaluations"], "traces": sub.cov["traces_validated_against_impl"], "samples": sub.cov["samples"],
+            "deep": sub.cov.get("deep_fingerprint_entries_max", 0), "leaves": sub.cov.get("describe_state_leaves_max", 0),
+            "agree": agree, "total": total, "wall": round(time.time() - t0, 1), "error": err}
+
+
+def explore_sharded(ctx: Ctx) -> None:
+    """R-req over worker processes, one scenario per unit (largest first); the merge is in scenario order"""
+    import multiprocessing as mp
+    import os
+    registry()                       # import primaite (and register every action) BEFORE forking
+    names = list(scenarios(ctx))
+    n = int(os.environ.get("C05_WORKERS", "0") or 0) or 8
+    n = max(1, min(n, len(names), os.cpu_count() or 2))
+    _SHARD.update({"prop": ctx.prop, "tier": ctx.tier, "seed": ctx.seed})
+    sizes = scenarios(ctx)
+    order = sorted(names, key=lambda k: -os.path.getsize(sizes[k]))
+    if n == 1:
+        got = [_shard_unit(k) for k in order]
+    else:
+        with mp.get_context("fork").Pool(n, maxtasksperchild=3) as pool:
+            got = pool.map(_shard_unit, order, chunksize=1)
+    by = {g["name"]: g for g in got}
+    agree = total = 0
+    errors = []
+    for k in names:
+        g = by[k]
+        for key, v in g["hist"].items():
+            ctx.count(key, v)
+        ctx.violations.extend(g["violations"])
+        ctx.notes.extend(g["notes"])
+        ctx._distinct |= g["distinct"]
+        ctx.cov["evaluations"] += g["evaluations"]
+        ctx.cov["traces_validated_against_impl"] += g["traces"]
+        for smp in g["samples"]:
+            ctx.sample(smp, cap=5)
+        ctx.cov["deep_fingerprint_entries_max"] = max(ctx.cov.get("deep_fingerprint_entries_max", 0), g["deep"])
+        ctx.cov["describe_state_leaves_max"] = max(ctx.cov.get("describe_state_leaves_max", 0), g["leaves"])
+        agree += g["agree"]
+        total += g["total"]
+        if g["error"]:
+            errors.append(f"{k}: {g['error'][:300]}")
+    ctx.cov["shards"] = {"worker_processes": n, "units": len(names),
+                         "slowest_units_s": dict(sorted(((g["name"], g["wall"]) for g in got), key=lambda kv: -kv[1])[:6])}
+    ctx.oblige("rig:R-req every shard finished", "correspondence", not errors, "; ".join(errors[:3]))
+    ctx.oblige("rig:R-req dispatch agrees with the model on every request", "correspondence", agree == total, f"{total - agree} of {total} differ")
 
 
 def replay(rec: dict) -> bool:
@@ -372,7 +446,10 @@ def run(ctx: Ctx):
     except Exception as e:
         contract = None
         ctx.notes.append(f"contract tables not readable from drv_c05: {type(e).__name__}: {e}")
-    judge(ctx, explore(ctx, contract=contract))
+    if ctx.thorough:
+        explore_sharded(ctx)       # ~60 scenarios x 4 rounds: sharded over worker processes (C05_WORKERS, default 8)
+    else:
+        judge(ctx, explore(ctx, contract=contract))
     _stage(ctx, "R-req+contract-oracle+live", t0)
     t0 = time.time()
     # contract search: every route-owning class driven into every gate-falsifying state, judged against the hand-written contract
